@@ -26,6 +26,16 @@ func SelfTest() error {
 	if d := SM3(bytes.Repeat([]byte("abcd"), 16)); hex.EncodeToString(d[:]) != "debe9ff92275b8a138604889c18e5a4d6fdb70e5387e5765293dcba39c0c5732" {
 		return fmt.Errorf("sm3ref: abcd*16 vector mismatch: %x", d)
 	}
+	st := NewSM3Stream()
+	var all []byte
+	for i := 0; i < 300; i++ {
+		chunk := bytes.Repeat([]byte{byte(i)}, i%97)
+		st.Write(chunk)
+		all = append(all, chunk...)
+		if i%50 == 49 && st.Sum() != SM3(all) {
+			return fmt.Errorf("sm3ref: streaming form disagrees with the one-shot form after %d bytes", len(all))
+		}
+	}
 	// GM/T 0003.5 signature example on the recommended curve.
 	d := unhex("3945208F7B2144B13F36E38AC6D39F95889393692860B51A42FB81EF4DF7C5B8")
 	k := unhex("59276E27D506861A16680F3AD9C02DCCEF3CC1FA3CDBE4CE6D54B80DEAC1BC21")
